@@ -26,6 +26,7 @@ def load_rules(prop: str):
 
     try:
         importlib.import_module(f"sa.rules.{prop.lower()}")
+        importlib.import_module("sa.rules.shared")
     except ModuleNotFoundError as e:
         if e.name == f"sa.rules.{prop.lower()}":
             return []
